@@ -126,7 +126,8 @@ def parseSpec (s : String) : Option Spec :=
       let ns ← parseItems ns
       let lease ← parseRel lease
       let rest := (k.drop 1).toString
-      some { name := name, kind := kc, tgt := if rest.startsWith "p" then rest else "n" ++ rest, ans := ans, ns := ns, lease := lease, isScoped := sc == "s" }
+      -- an alias is chased with the question's own type: the target stays on the name's side (n = A, m = AAAA)
+      some { name := name, kind := kc, tgt := if rest.startsWith "p" then rest else (name.take 1).toString ++ rest, ans := ans, ns := ns, lease := lease, isScoped := sc == "s" }
     | _ => none
   | _ => none
 
@@ -144,6 +145,8 @@ structure Reply where
   lastCname : Option String := none       -- target of the last CNAME of the answer section
   hasType : Bool := false                 -- the answer section holds a record of the question type
   synth : Option (String × Nat) := none   -- carries a validated RFC 8198 synthesis (owner index, TTL shown)
+  aliases : List String := []             -- answer pieces that are CNAMEs
+  freshTTLs : List (String × List Nat) := []   -- TTLs of the answer records of pieces relayed from the upstream
 deriving Repr
 
 structure HState where
@@ -196,7 +199,8 @@ def mergeReply (r s : Reply) : Reply :=
     ns := r.ns ++ s.ns.filter (fun n => !(r.ns.any fun m => m.rid == n.rid)),
     nx := r.nx || s.nx, fresh := r.fresh ++ s.fresh, expired := r.expired || s.expired,
     lastCname := if s.lastCname.isSome then s.lastCname else r.lastCname, hasType := r.hasType || s.hasType,
-    synth := if s.synth.isSome then s.synth else r.synth }
+    synth := if s.synth.isSome then s.synth else r.synth,
+    aliases := r.aliases ++ s.aliases, freshTTLs := r.freshTTLs ++ s.freshTTLs }
 
 def sigPRR (now : Int) (ttl : Nat) (g : Item) : ProofRR :=
   { rr := { ttl := ttl, kind := .rrsig (now + g.b * S) }, orig := g.a.toNat }
@@ -247,16 +251,16 @@ def rerecord (st : HState) (r : Reply) (now : Int) (cut : Option Int) : HState :
 /-- `Cache.ServeDNS` for one (sub-)query at `now`; returns the reply (if any
 was written) and the request tree's delegation-cut bound (`ResponseMeta.Cut`). -/
 def serve (cfg : Cfg) (script : List (String × Spec)) (now : Int) :
-    Nat → HState → String → Bool → Bool → Bool → HState × Option Reply × Option Int
-  | 0, st, _, _, _, _ => (st, none, none)
-  | fuel + 1, st, name, ecs, internal, bypass =>
+    Nat → HState → String → Bool → Bool → Bool → Option Int → HState × Option Reply × Option Int
+  | 0, st, _, _, _, _, m0 => (st, none, m0)
+  | fuel + 1, st, name, ecs, internal, bypass, m0 =>
     -- one pass of the `lookup:` loop of `additionalAnswer`: query `t` through
     -- the sub-pipeline; the Bool says whether the loop is over, the String is
     -- the next target (`child && !respCnameHasType`)
     let chaseOnce (st : HState) (r : Reply) (t : String) (mcut : Option Int) :
         HState × Reply × Option Int × Option String :=
       -- internalExchange: the sub-query accumulates its own bound (ForkCut)
-      match serve cfg script now fuel st t false true bypass with
+      match serve cfg script now fuel st t false true bypass none with
       | (st, none, _) => (st, r, mcut, none)
       | (st, some s, child) =>
         if s.ans.isEmpty && s.ns.isEmpty then
@@ -288,39 +292,42 @@ def serve (cfg : Cfg) (script : List (String × Spec)) (now : Int) :
             (st, r, mcut)
     -- a name of the proof zone: never admitted itself; CD / ECS request trees bypass shared denial
     if name.startsWith "p" then
-      if bypass then (st, none, none) else
+      if bypass then (st, none, m0) else
       match synthReply st (name.drop 1).toString now with
-      | some (r, exp) => (st, some r, boundCut none (some exp))     -- boundRequestTo(ctx, proofExpires)
-      | none => (st, none, none)
+      | some (r, exp) => (st, some r, boundCut m0 (some exp))     -- boundRequestTo(ctx, proofExpires)
+      | none => (st, none, m0)
     else
     match lookupSlots st name (ecs && !internal) now with
     | (st, some he) =>
       -- handleCacheHit: ToMsg / serveWire / serveWireIntoRequest all stamp `secs (remaining now)`
       match he.e.toMsgTTL now with
-      | none => (st, none, none)
+      | none => (st, none, m0)
       | some shown =>
         -- boundRequestToEntryLifetime
-        let mcut := boundCut none (some he.e.hardUntil)
+        let mcut := boundCut m0 (some he.e.hardUntil)
         let r0 : Reply := { ans := if he.hasAns then [name] else [], ansTTL := if he.hasAns then [(name, shown)] else [],
                             ns := he.ns.map (fun n => { n with ttl := shown, fresh := false }), nx := he.nx,
                             expired := he.ns.any nsExpired, lastCname := he.target,
-                            hasType := he.hasAns && he.target.isNone }
+                            hasType := he.hasAns && he.target.isNone,
+                            aliases := if he.hasAns && he.target.isSome then [name] else [] }
         if he.nx then (st, some r0, mcut) else
         let (st, r, mcut) := chase st r0 he.target mcut
         (st, some r, mcut)
     | (st, none) =>
       match script.lookup name with
-      | none => (st, none, none)             -- the upstream stays silent
+      | none => (st, none, m0)               -- the upstream stays silent
       | some sp =>
         let id := st.nextId
         let st := { st with nextId := id + 1 }
         -- the resolver folds the delegation lease into the request tree
-        let mcut := boundCut none (sp.lease.map fun l => now + l * S)
+        let mcut := boundCut m0 (sp.lease.map fun l => now + l * S)
         let r0 : Reply := { ans := if sp.ans.isEmpty then [] else [name], ns := itemsToNs id name sp.ns,
                             nx := sp.kind == 'x', fresh := [name],
                             expired := sp.ans.any itemExpired || sp.ns.any itemExpired,
                             lastCname := if sp.kind == 'c' then some sp.tgt else none,
-                            hasType := sp.kind == 'p' && !sp.ans.isEmpty }
+                            hasType := sp.kind == 'p' && !sp.ans.isEmpty,
+                            aliases := if sp.kind == 'c' && !sp.ans.isEmpty then [name] else [],
+                            freshTTLs := [(name, (sp.ans.filter (·.kind == 'p')).map (·.ttl))] }
         -- ResponseWriter.WriteMsg: chase first, then read the mcut and store
         let (st, r, mcut) := if sp.kind == 'c' then chase st r0 (some sp.tgt) mcut else (st, r0, mcut)
         let st := if bypass then st else rerecord st r now mcut
@@ -373,7 +380,31 @@ def replyTokens (r : Reply) : String :=
     o ++ "~" ++ joinWith "/" vals
   joinWith " " (ansToks ++ nsToks)
 
-def names : List String := ["n0", "n1", "n2", "n3", "n4", "n5"]
+def names : List String := ["n0", "n1", "n2", "n3", "n4", "n5", "m0", "m1", "m2", "m3", "m4", "m5"]
+
+/-- `dns64.responseWriter.WriteMsg` for the reply `r6` of the AAAA side:
+NXDOMAIN and replies that carry an AAAA pass through; otherwise the A side is
+asked (`aLookup`, the internal sub-pipeline) and its answer becomes the reply —
+as it is when it has no address (RFC 6147 §5.1.6), else with every address
+turned into a synthetic AAAA whose TTL is `dns64TTL` and the chain capped. -/
+def dns64Compose (r6 : Reply) (r4 : Option Reply) : Reply :=
+  if r6.nx || r6.hasType then r6 else
+  match r4 with
+  | none => r6
+  | some r4 =>
+    -- the A lookup carries no OPT: the sub-pipeline's edns layer strips the DNSSEC records of its answer
+    let r4 := stripForDO false r4
+    if r4.nx || !r4.hasType then r4
+    else
+      let soa := (r6.ns.filterMap fun n => match n.kind with | .soa mn => some (n.ttl, mn) | _ => none).head?
+      let addrTTLs := r4.ans.flatMap fun p =>
+        if r4.aliases.contains p then [] else
+        match r4.freshTTLs.lookup p with
+        | some l => l
+        | none => match r4.ansTTL.lookup p with | some t => [t] | none => []
+      let ttl := dns64TTL noSOACeiling (negativeAAAATTL soa) addrTTLs
+      { r4 with ansTTL := r4.ansTTL.map fun (p, t) => (p, dns64ChainTTL ttl t) }
+
 
 def listing (st : HState) (idFrom : Nat) (now : Int) : String :=
   let parts := names.flatMap fun n => [false, true].filterMap fun sc =>
@@ -419,16 +450,60 @@ def stepHist (st : State) (w : List String) : State × String :=
           | some t => ({ st with h := h }, "hit " ++ tok ++ "~" ++ toString t)
       else
         let id0 := h.nextId
-        let (h', r, _) := serve (genCfg h.ecsCap) script now 14 h name ecs false ecs
+        let (h', r, root) := serve (genCfg h.ecsCap) script now 14 h name ecs false ecs none
+        let qFresh := match r with | some r => r.fresh.contains name | none => false
+        -- an AAAA question passes the dns64 middleware in front of the cache
+        let (h', r) :=
+          if name.startsWith "m" then
+            match r with
+            | none => (h', r)
+            | some r6 =>
+              if r6.nx || r6.hasType then (h', some r6) else
+              -- the A lookup is not forked: it runs in the request tree of the AAAA question and
+              -- shares its ResponseMeta (every deadline folded so far bounds what it admits)
+              let (h'', r4, _) := serve (genCfg h.ecsCap) script now 14 h' ("n" ++ (name.drop 1).toString) false true ecs root
+              (h'', some (dns64Compose r6 r4))
+          else (h', r)
         let head := match r with
           | none => "miss"
           | some r =>
-            if r.fresh.contains name then "fwd"
+            if qFresh then "fwd"
             else
               let t := replyTokens (stripForDO doBit r)
               if t == "" then "hit" else "hit " ++ t
         ({ st with h := h' }, head ++ listing h' id0 now)
     | _, _ => (st, "bad-op")
+  | ["c", "get", name] =>
+    -- Store.GetWithContext: exact entry (ToMsg, no chase), else subtree cut, else synthesis;
+    -- the answer binds the request tree: boundRequestToEntryLifetime / boundRequestTo
+    let h := { h with j := h.j + 1 }
+    let now := nowOf h
+    let showBound (b : Option Int) : String := match b with
+      | some c => toString (ceilDiv (c - now))
+      | none => "-"
+    if name.startsWith "u" then
+      let tok := "d" ++ (name.drop 1).toString
+      match h.cuts.lookup tok with
+      | none => ({ st with h := h }, "miss")
+      | some exp =>
+        match expiryServeTTL exp now with
+        | none => ({ st with h := { h with cuts := h.cuts.filter (·.1 != tok) } }, "miss")
+        | some t => ({ st with h := h }, "hit " ++ tok ++ "~" ++ toString t ++ " bound=" ++ showBound (boundCut none (some exp)))
+    else if name.startsWith "p" then
+      match synthReply h (name.drop 1).toString now with
+      | some (r, exp) => ({ st with h := h }, "hit " ++ replyTokens r ++ " bound=" ++ showBound (boundCut none (some exp)))
+      | none => ({ st with h := h }, "miss")
+    else
+      match tryKey h (name, false) now with
+      | (h, none) => ({ st with h := h }, "miss")
+      | (h, some he) =>
+        match he.e.toMsgTTL now with
+        | none => ({ st with h := h }, "miss")
+        | some shown =>
+          let r : Reply := { ans := if he.hasAns then [name] else [], ansTTL := if he.hasAns then [(name, shown)] else [],
+                             ns := he.ns.map (fun n => { n with ttl := shown, fresh := false }) }
+          let t := replyTokens r
+          ({ st with h := h }, (if t == "" then "hit" else "hit " ++ t) ++ " bound=" ++ showBound (boundCut none (some he.e.hardUntil)))
   | ["c", "purge", name] =>
     let h := { h with j := h.j + 1 }
     ({ st with h := delSlot (delSlot h (name, false)) (name, true) }, "ok")
@@ -507,6 +582,14 @@ def stepTTL (st : State) (w : List String) : State × String :=
       let msg : Msg := { answer := a.map (Item.toRR 0), ns := n.map (Item.toRR 0), extra := e.map (Item.toRR 0) }
       (st, toString (ceilDiv (calculateCacheTTL cfg msg rt 0)))
     | _, _, _, _ => (st, "bad-op")
+  | ["ttl", "neg64", items] =>
+    match parseItems items with
+    | some items =>
+      let soa := (items.filterMap fun it => if it.kind == 's' then some (it.ttl, it.a.toNat) else none).head?
+      match negativeAAAATTL soa with
+      | some n => (st, toString n)
+      | none => (st, "none")
+    | none => (st, "bad-op")
   | ["ttl", "sig", ttl, tue] =>
     match ttl.toNat?, tue.toInt? with
     | some ttl, some tue => (st, toString (getRRSIGTTL cfg.minC ttl tue 0))
